@@ -41,7 +41,8 @@ type Exec struct {
 	maxPaths int
 	assignsLocs []assignLoc
 	resultNames []string
-	euclid        map[string][2]Term
+	euclid        map[string]*euclidEntry
+	euclidOrder   []*euclidEntry
 	usedContracts map[string]*FnSpec
 	pending       []pendingPath
 	kf            []knownFinding
@@ -92,7 +93,7 @@ func newExec(ld *Loaded, db *SpecDB, fn *ssa.Function, spec *FnSpec, cf *Contrac
 	ex := &Exec{ctx: newCtx(), ld: ld, db: db, fn: fn, spec: spec, cf: cf, pkgPath: fn.Pkg.Pkg.Path(),
 		params: map[string]TV{}, loops: map[*ssa.BasicBlock]*loopInfo{}, callOrd: map[ssa.Instruction]int{},
 		siteOrd: map[ssa.Instruction]int{}, notes: map[string]bool{}, strIDs: map[string]int{}, maxPaths: 20000,
-		euclid: map[string][2]Term{}, usedContracts: map[string]*FnSpec{}, whens: map[string][]Term{}}
+		euclid: map[string]*euclidEntry{}, usedContracts: map[string]*FnSpec{}, whens: map[string][]Term{}}
 	return ex
 }
 
@@ -139,6 +140,7 @@ func (ex *Exec) verify() (obligs []Oblig, err error) {
 	for _, r := range ex.spec.Requires {
 		st.assume(env.evalBool(r.Expr))
 	}
+	ex.useLemmas(st, env, ex.obName(""))
 	ex.entry = st.clone()
 	ex.entry.asm = st.asm[:len(st.asm):len(st.asm)]
 	// vacuity guard: the precondition must be satisfiable
@@ -327,7 +329,7 @@ func (ex *Exec) panicExit(st *State, in ssa.Instruction, what string) {
 	}
 	goal := tFalse
 	if ex.spec.Panics != nil {
-		goal = ex.fnEnv(ex.entry, ex.entry).evalBool(ex.spec.Panics)
+		goal = ex.entryEnv(st).evalBool(ex.spec.Panics)
 	}
 	st.oblige(ex.obName(fmt.Sprintf("nopanic.%d", ex.siteOrd[in])), "nopanic", goal, what+" at "+ex.pos(in))
 }
@@ -341,7 +343,7 @@ func (ex *Exec) safety(st *State, in ssa.Instruction, kind string, ok Term) {
 	if !ex.spec.PanicsAny {
 		goal := ok
 		if ex.spec.Panics != nil {
-			goal = tOr(ok, ex.fnEnv(ex.entry, ex.entry).evalBool(ex.spec.Panics))
+			goal = tOr(ok, ex.entryEnv(st).evalBool(ex.spec.Panics))
 		}
 		st.oblige(ex.obName(fmt.Sprintf("safe.%s.%d", kind, ex.siteOrd[in])), "safe", goal, kind+" at "+ex.pos(in))
 	}
@@ -755,12 +757,11 @@ func (ex *Exec) divmod(st *State, x, y Term, signed bool) (Term, Term) {
 		r := tSub(x, tMul(q, y))
 		return st.named("quo", q), st.named("rem", r)
 	}
+	if !signed {
+		return ex.euclidPair(st, x, y)
+	}
 	q := ex.ctx.Fresh("q", SInt)
 	r := ex.ctx.Fresh("r", SInt)
-	if !signed {
-		st.assume(tImp(tGt(y, intLit(0)), tAnd(tEq(x, tAdd(tMul(q, y), r)), tLe(intLit(0), r), tLt(r, y), tLe(intLit(0), q))))
-		return q, r
-	}
 	// signed truncated division: x = q*y + r, |r| < |y|, sign(r) = sign(x) or r = 0
 	absy := tIte(tGe(y, intLit(0)), y, tNeg(y))
 	st.assume(tImp(tNot(tEq(y, intLit(0))), tAnd(tEq(x, tAdd(tMul(q, y), r)),
@@ -1145,7 +1146,7 @@ func (ex *Exec) doReturn(st *State, r *ssa.Return) {
 	}
 	if ex.spec.Panics != nil {
 		// panics is an iff: a normal return implies the panic condition did not hold on entry
-		g := tNot(ex.fnEnv(ex.entry, ex.entry).evalBool(ex.spec.Panics))
+		g := tNot(ex.entryEnv(st).evalBool(ex.spec.Panics))
 		st.oblige(ex.obName("panics.iff"), "panics", g, "normal return only when !("+ex.spec.Panics.String()+")")
 	}
 }
@@ -1186,4 +1187,42 @@ func allocIsSliced(a *ssa.Alloc) bool {
 		}
 	}
 	return false
+}
+
+// entryEnv evaluates over the entry state; side assumptions (Euclid definitions, ranges) go to st.
+func (ex *Exec) entryEnv(st *State) *Env {
+	env := ex.fnEnv(ex.entry, ex.entry)
+	env.sink = st
+	return env
+}
+
+type euclidEntry struct{ x, y, q, r Term }
+
+// euclidPair returns quotient and remainder constants for floor division x / y (y > 0), defined by the
+// Euclidean axiom in the sink state. Division is a function: every pair is related to every earlier pair
+// by the congruence x1 = x2 ∧ y1 = y2 ⇒ q1 = q2 ∧ r1 = r2 (Ackermann instances), so the solver never has to
+// rediscover uniqueness of Euclidean division.
+func (ex *Exec) euclidPair(sink *State, x, y Term) (Term, Term) {
+	key := x.S + "|" + y.S
+	e, ok := ex.euclid[key]
+	if !ok {
+		e = &euclidEntry{x: x, y: y, q: ex.ctx.Fresh("q", SInt), r: ex.ctx.Fresh("r", SInt)}
+		ex.euclid[key] = e
+		ex.euclidOrder = append(ex.euclidOrder, e)
+	}
+	def := tImp(tGt(y, intLit(0)), tAnd(tEq(x, tAdd(tMul(e.q, y), e.r)), tLe(intLit(0), e.r), tLt(e.r, y), tImp(tGe(x, intLit(0)), tLe(intLit(0), e.q))))
+	if sink.euclidSeen == nil {
+		sink.euclidSeen = map[string]bool{}
+	}
+	if !sink.euclidSeen[key] {
+		sink.euclidSeen[key] = true
+		sink.assume(def)
+		for _, o := range ex.euclidOrder {
+			if o == e || !sink.euclidSeen[o.x.S+"|"+o.y.S] {
+				continue
+			}
+			sink.assume(tImp(tAnd(tEq(o.x, x), tEq(o.y, y)), tAnd(tEq(o.q, e.q), tEq(o.r, e.r))))
+		}
+	}
+	return e.q, e.r
 }
